@@ -63,6 +63,8 @@ pub enum Why {
     ContractError,
     BadAttribute,
     Overdraft,
+    /// a credit that would take a balance beyond the 128-bit range: the operation has to fail (the simulator panics)
+    BalanceOverflow,
     NoPositiveAmount,
     UnknownContract,
     InvalidAddress,
@@ -383,6 +385,9 @@ impl ChainM {
         match msg {
             Msg::BankSend { to, coins } => {
                 let c = to_coins(coins);
+                if self.st.bank.can_debit(sender, &c) && sender != to && self.st.bank.credit_overflows(to, &c) {
+                    return Err(Why::BalanceOverflow);
+                }
                 if !self.st.bank.send(sender, to, &c) {
                     return Err(self.bank_debit_why(sender, &c));
                 }
@@ -416,6 +421,9 @@ impl ChainM {
                 };
                 if !funds.is_empty() {
                     let c = to_coins(funds);
+                    if self.st.bank.can_debit(sender, &c) && sender != addr && self.st.bank.credit_overflows(addr, &c) {
+                        return Err(Why::BalanceOverflow);
+                    }
                     if !self.st.bank.send(sender, addr, &c) {
                         return Err(self.bank_debit_why(sender, &c));
                     }
